@@ -113,6 +113,8 @@ BREAK = {"k": "break"}
 CONTINUE = {"k": "continue"}
 def bind(n, e): return {"k": "bind", "n": n, "e": e}
 def comment(text): return {"k": "comment", "text": text}
+def waitfor(n, allow_zero=False, via="std"):
+    return {"k": "waitfor", "n": n if isinstance(n, dict) else {"k": "int", "v": n}, "allow_zero": 1 if allow_zero else 0, "via": via}
 
 # ---------------------------------------------------------------- pretty printer
 _BINOP = {"add": "+", "sub": "-", "mul": "*", "mod": "%", "and": "&", "or": "|", "xor": "^",
@@ -221,6 +223,9 @@ class Printer:
                     out.append(f"{pad}{t} {op} {e}")
                 else:
                     out.append(f"{pad}{t}.{s['mode']} = {e}")
+            elif k == "waitfor":
+                arg = self.expr(s["n"]) + (", allow_zero=True" if s["allow_zero"] else "")
+                out.append(f"{pad}await {'std' if s['via'] == 'std' else 'waiter'}.wait_for({arg})")
             elif k == "comment":
                 out.append(f'{pad}std.comment("{s["text"]}")')
             elif k == "bind":
@@ -272,6 +277,8 @@ class Printer:
             if o["noreset"]:
                 args.append("noreset=True")
             out.append(f"        {o['n']} = {q}[{ty_py(o['ty'])}]({', '.join(args)})")
+        if "waiter" in json.dumps(ent["ctxs"]):
+            out.append(f"        waiter = std.Waiter({ent.get('waiter_max', 7)})")
         for c in ent["ctxs"]:
             out.append("")
             if c["kind"] == "seq":
